@@ -27,6 +27,8 @@ def run(ctx):
         storelib.random_runs(ctx, pool, cov, [dict(seed=sd, n=(250 if ctx.quick() else 700), caps=[], cache=0, pcrash=0, pflush=0.1, wal=False,
                                                    maxrows=(12 if i % 2 else 30), bias=("grow" if i % 2 == 0 else ""))
                                               for i, sd in enumerate(seeds)])
+        if not ctx.quick():
+            storelib.design_only(ctx, "big", dict(MaxStmts=7, MaxRows=3, MaxFlush=1, MaxEvict=1, Vals="{1, 2}"), cov, timeout=600)
     finally:
         pool.close()
     drift = sum(c["drift"] for c in cov["configs"])
